@@ -334,7 +334,8 @@ def run(tier, seed, workers):
         for c, f in r['first'].items():
             if c not in firsts or _fkey(f) < _fkey(firsts[c]):
                 firsts[c] = f
-    firsts = {c: {'input': f['input'], 'observed': f['observed'], 'expected': f['expected']}
+    firsts = {c: {'contract': f['contract'], 'input': f['input'], 'observed': f['observed'],
+                  'expected': f['expected']}
               for c, f in firsts.items()}
     out.update({
         'domain': (
@@ -352,8 +353,8 @@ def run(tier, seed, workers):
         'exhaustive': True,
         'samples': samples,
         'failures_total': total,
-        'failure_classes': classes,
-        'smallest_per_class': firsts,
+        'failures_by_class': classes,
+        'minimal_input_per_class': firsts,
         'failures': fl[:400],
         'time_s': round(T.s(), 1),
     })
